@@ -2,6 +2,7 @@ package main
 
 import (
 	_ "verif/internal/props/c01"
+	_ "verif/internal/props/c15"
 	_ "verif/internal/props/c16"
 	_ "verif/internal/props/c18"
 )
